@@ -564,9 +564,10 @@ def cFunction (ce : CE) (strings : List Bytes) (params : List Param) (body : Lis
       match encodeAll code with
       | none => .error (.bad "instruction does not encode")
       | some bytes =>
-        let needRet := match bytes.getLast? with
-          | none => true
-          | some b => b.toNat != Opc.RET.toByte
+        -- decided on the last statement of the body, not on the last emitted byte
+        let needRet := match body.getLast? with
+          | some (.ret _) => false
+          | _ => true
         let tail : Bytes := if needRet then [UInt8.ofNat Opc.PUSH_VOID.toByte, UInt8.ofNat Opc.RET.toByte] else []
         .ok (cs1.strings, bytes ++ tail, cs1.locals.length)
 
